@@ -408,6 +408,8 @@ func CorpusFlags(seed int64, tier string) []*Case {
 		{Name: "UsesDep", Methods: []Method{meth("Send", ps(par("t", Named(a, "T")), par("m", Map(Basic("string"), Named(1, "T")))), ps(par("", Named(a, "U"))))}},
 		{Name: "Empty"},
 		{Name: "Gen", TParams: []TypeParam{{Name: "T", Constraint: "any"}}, OneFile: true, Methods: []Method{meth("One", ps(par("v", TParam("T"))), ps(par("", TParam("T")), par("", errT)))}},
+		{Name: "Namey", Methods: []Method{meth("Http", ps(par("req", Basic("string"))), nil), meth("Id", nil, ps(par("", Basic("int")))), meth("Json", ps(par("v", Slice(Basic("byte")))), ps(par("", errT))),
+			meth("Url", nil, ps(par("", Basic("string")), par("", errT))), meth("Uuid", ps(par("n", Basic("int"))), nil)}},
 		{Name: "Vari", Methods: []Method{{Name: "Log", Params: ps(par("format", Basic("string")), par("args", Slice(AliasT("any")))), Results: []Param{}, Variadic: true}}},
 	}
 	src := newSrc("fsrc", pkgs, ifs...)
